@@ -410,8 +410,8 @@ package oauth2
 //@   ensures [C13.tokens-imply-fragment-default] err == nil && old(inv) ==> inv
 //@   ensures [C13.implicit-needs-grant] err == nil && old(ar.GetResponseTypes().ExactOne("token")) ==> ar.GetClient().GetGrantTypes().Has("implicit")
 //@   ensures [C13.token-only-when-requested] !old(ar.GetResponseTypes().ExactOne("token")) ==> err == nil && (forall k string :: (k in resp.GetParameters()) == old(k in resp.GetParameters())) && ar.GetDefaultResponseMode() == old(ar.GetDefaultResponseMode())
-//@   ensures ar.GetResponseTypes() == old(ar.GetResponseTypes()) && ar.GetResponseMode() == old(ar.GetResponseMode()) && resp.GetParameters() == old(resp.GetParameters())
-//@   invariant loop#1 ar.GetDefaultResponseMode() == fosite.ResponseModeFragment
+//@   ensures ar.GetResponseTypes() == old(ar.GetResponseTypes()) && (old(ar.GetResponseMode()) != fosite.ResponseModeDefault ==> ar.GetResponseMode() == old(ar.GetResponseMode())) && resp.GetParameters() == old(resp.GetParameters())
+//@   invariant loop#1 [C13.tokens-imply-fragment-default] ar.GetDefaultResponseMode() == fosite.ResponseModeFragment
 
 //@ func (*AuthorizeExplicitGrantHandler).IssueAuthorizeCode
 //@   requires c != nil && ar != nil && resp != nil && ar.GetSession() != nil && ar.GetClient() != nil
@@ -424,10 +424,24 @@ package oauth2
 //@   modifies everything
 //@   ensures [C13.tokens-imply-fragment-default] err == nil && old(inv) ==> inv
 //@   ensures [C13.token-only-when-requested] forall k string :: (k in resp.GetParameters()) ==> (old(k in resp.GetParameters()) || k == "code" || k == "state" || k == "scope")
-//@   ensures ar.GetResponseTypes() == old(ar.GetResponseTypes()) && ar.GetResponseMode() == old(ar.GetResponseMode()) && resp.GetParameters() == old(resp.GetParameters())
+//@   ensures ar.GetResponseTypes() == old(ar.GetResponseTypes()) && (old(ar.GetResponseMode()) != fosite.ResponseModeDefault ==> ar.GetResponseMode() == old(ar.GetResponseMode())) && resp.GetParameters() == old(resp.GetParameters())
 //@ func (*AuthorizeExplicitGrantHandler).GetSanitationWhiteList
 //@   requires c != nil
 //@   ensures len(result) > 0
 //@ func (*AuthorizeExplicitGrantHandler).secureChecker
 //@   requires c != nil
 //@   ensures result != nil
+
+// ---------------------------------------------------------------- C10: client_credentials grant
+//@ func (*ClientCredentialsGrantHandler).CanHandleTokenEndpointRequest
+//@   requires c != nil && requester != nil
+//@   ensures result == requester.GetGrantTypes().ExactOne("client_credentials")
+//@ func (*ClientCredentialsGrantHandler).CanSkipClientAuth
+//@   ensures [C10.client-credentials-never-skips-auth] !result
+//@ func (*ClientCredentialsGrantHandler).HandleTokenEndpointRequest
+//@   requires c != nil && request != nil && request.GetClient() != nil && request.GetSession() != nil
+//@   modifies request.GetSession().GetExpiresAt(fosite.AccessToken)
+//@   ensures [C10.public-never-client-credentials] err == nil ==> !request.GetClient().IsPublic() && request.GetGrantTypes().ExactOne("client_credentials")
+//@   ensures [C12.client-credentials-scope-confined] err == nil ==> (forall j int :: 0 <= j && j < len(request.GetRequestedScopes()) ==> call(c.Config.GetScopeStrategy(ctx), request.GetClient().GetScopes(), request.GetRequestedScopes()[j])) && call(c.Config.GetAudienceStrategy(ctx), request.GetClient().GetAudience(), request.GetRequestedAudience()) == nil
+//@   ensures [C07.client-credentials-expiry] err == nil ==> request.GetSession().GetExpiresAt(fosite.AccessToken) == $now + fosite.GetEffectiveLifespan(request.GetClient(), fosite.GrantTypeClientCredentials, fosite.AccessToken, c.Config.GetAccessTokenLifespan(ctx))
+//@   invariant loop#1 [C12.client-credentials-scope-confined] $i <= len(request.GetRequestedScopes()) && (forall j int :: 0 <= j && j < $i ==> call(c.Config.GetScopeStrategy(ctx), request.GetClient().GetScopes(), request.GetRequestedScopes()[j]))
